@@ -17,7 +17,7 @@ DEFAULT = dict(
     p_group_result=0.25, p_flatten=0.4, p_as=0.12, p_named=0.25,
     p_opt=0.25, p_group_param=0.25, p_soft=0.35, p_obj=0.5, p_nest=0.25,
     p_dup=0.06, p_cycle=0.1, p_unknown_dep=0.08, p_foreign_dep=0.12,
-    n_types=8, early_scopes=0.3, p_multi_dec=0.25, p_group_dec=0.3, p_dec_self=0.85, p_one_obj=0.0, p_soft_pattern=0.0, p_dec_chain=0.0, p_dup_as=0.03, p_dup_dec_key=0.0, p_variadic=0.12, p_ns=0.2,
+    n_types=8, early_scopes=0.3, p_multi_dec=0.25, p_group_dec=0.3, p_dec_self=0.85, p_one_obj=0.0, p_soft_pattern=0.0, p_dec_chain=0.0, p_dup_as=0.03, p_dup_dec_key=0.0, p_variadic=0.12, p_ns=0.2, p_wrap_ty=0.08,
 )
 
 PROFILES = {
@@ -92,7 +92,13 @@ class Gen:
         return ks
 
     def rand_type(self):
-        return self.r.randrange(self.p["n_types"])
+        t = self.r.randrange(self.p["n_types"])
+        if self.chance(self.p["p_wrap_ty"]):
+            # structural type codes (GoTypes.tcode): 32+4k = *T<k>, 35+4k = NS<k> (a named slice type with
+            # methods): keys distinct from T<k>, both implement I0..I3; with NS<k> a value group has
+            # MEMBERS that are themselves slices
+            t = (32 if self.chance(0.4) else 35) + 4 * (t % 3)
+        return t
 
     def rand_single_key(self):
         name = self.r.choice([1, 2]) if self.chance(self.p["p_named"]) else 0
@@ -225,7 +231,7 @@ class Gen:
                     k = self.r.choice(vg)
                 flat = self.chance(self.p["p_flatten"])
                 l = dict(k="group", ty=k[1], group=k[2], flatten=flat, **{"as": []})
-                if not flat and self.chance(self.p["p_as"]):
+                if not flat and k[1] < 16 and self.chance(self.p["p_as"]):
                     its = self.r.sample(IFACES, self.r.choice([1, 2, 2]))
                     if self.chance(self.p.get("p_dup_as", 0.0)):
                         its = its + [its[0]]        # dig.As(new(I), new(I))
@@ -244,7 +250,7 @@ class Gen:
                     if vis:
                         k = self.r.choice(vis)
                 l = dict(k="single", ty=k[1], name=k[2], **{"as": []})
-                if self.chance(self.p["p_as"]):
+                if k[1] < 16 and self.chance(self.p["p_as"]):
                     n_as = self.r.choice([1, 1, 2])
                     l["as"] = self.r.sample(IFACES, n_as)
             if k in keys and k[0] == "s" and not self.chance(self.p["p_dup"]):
